@@ -392,7 +392,7 @@ def c15(tier, seed):
 def c18(tier, seed):
     def key(scn):
         r = scn['req']
-        if (r['integ'] == 'werkzeug' and r['statusfn'] == 'custom') or r['body'] == 'non_utf8':
+        if (r['integ'] == 'werkzeug' and r['statusfn'] == 'custom') or r['body'] == 'non_utf8' or r['media']['variant'] == 'charset_unknown':
             return None     # non-UTF-8 bodies are a don't-care region (400 or a -32700 document)                     # werkzeug has no status function: constant 200 (modelled)
         return _strip(scn, ('integ',))
     def obs(tr):
@@ -405,7 +405,7 @@ def c18(tier, seed):
                trace=('HttpGateTrace', 'HttpGateTrace.cfg'), drive_shards=8, pairing=(key, obs),
                nontrivial=lambda tr: tr['ev'] and tr['ev'][0].get('execs', 0) > 0)
     return dict(stages=[st],
-                rule='(as built now: 39 media types incl. charset parameters other than utf-8, 11 body classes incl. parameters that do not bind, a status function over the whole tuple of codes, a third endpoint - aiohttp: sub-application) integrations {aiohttp (loopback test server), flask, werkzeug (test clients)} x 25 media types (each documented '
+                rule='(as built now: 42 media types incl. charset parameters other than utf-8 and a charset parameter that names no known encoding (dispatched, or refused with 400 running nothing - never a server error), 11 body classes incl. parameters that do not bind, a status function over the whole tuple of codes, a third endpoint - aiohttp: sub-application) integrations {aiohttp (loopback test server), flask, werkzeug (test clients)} x 25 media types (each documented '
                      'type plain / with charset / upper-case / both / with spaces; near-miss, unrelated, +json suffix, missing header) x '
                      '10 body classes (call, failing call, notification, batches, unknown method, invalid, not JSON, not UTF-8) x '
                      'default / custom status function x main / additional endpoint: the full product (3000 requests); every reply is '
